@@ -1,6 +1,7 @@
 #!/bin/bash
 # Runs every seeded change against every property's quick check (which checks catch which changes).
-# usage: matrix.sh [shards]        (default 4; ONLY="C01-m1 C02-r2m1 ..." restricts the changes)
+# usage: matrix.sh [shards]        (default 4; ONLY="C01-m1 C02-r2m1 ..." restricts the changes;
+#        OWN=1 runs each change against the check of the property it was written for only)
 # Each shard works in its own scratch worktree of /repo (${MATRIX_TMP:-/tmp}/vmatrix-<n>) with its own build
 # directory (harness/target-mx-<n>), so /repo itself is never modified; both are removed at the end.
 # Output: one line per change, "<change> CAUGHT-BY: <properties whose quick check reports a violation>".
@@ -24,13 +25,14 @@ for i in $(seq 0 $((N - 1))); do
         j=0
         for k in "${all[@]}"; do
             if [ $((j % N)) -eq "$i" ]; then
-                r=$(MUT_REPO="$wt" MUT_TARGET_DIR="$ROOT/harness/target-mx-$i" scripts/try_mutant.sh "seeded/$k/patch.diff" 2>&1 | grep "CAUGHT-BY")
+                own=""; [ "${OWN:-0}" = "1" ] && own="${k%%-*}"
+                r=$(MUT_REPO="$wt" MUT_TARGET_DIR="$ROOT/harness/target-mx-$i" MUT_REPLAY_DIR="$TMP/vmatrix-replays-$i" scripts/try_mutant.sh "seeded/$k/patch.diff" $own 2>&1 | grep "CAUGHT-BY")
                 echo "$k $r"
             fi
             j=$((j + 1))
         done
         git -C /repo worktree remove --force "$wt" >/dev/null 2>&1
-        rm -rf "$wt" "$ROOT/harness/target-mx-$i"
+        rm -rf "$wt" "$ROOT/harness/target-mx-$i" "$TMP/vmatrix-replays-$i"
     ) &
     pids+=($!)
 done
